@@ -45,6 +45,9 @@ pub struct Scn {
     pub beta: u32,
     pub callers: Vec<Caller>,
     pub knobs: SchedKnobs,
+    /// the wrapped service takes only this many calls at a time (readiness waits for a slot)
+    #[serde(default)]
+    pub inner_capacity: Option<u32>,
 }
 
 pub fn gen(rng: &mut Rng) -> Scn {
@@ -80,6 +83,7 @@ pub fn gen(rng: &mut Rng) -> Scn {
         beta: rng.range(3, 6) as u32,
         callers,
         knobs: SchedKnobs::gen(rng, false, 60),
+        inner_capacity: if rng.chance(1, 5) { Some(rng.range(1, 2) as u32) } else { None },
     }
 }
 
@@ -102,6 +106,7 @@ pub fn valid(s: &Scn) -> bool {
         && s.callers.len() <= 12
         && s.callers.iter().all(|c| c.start_ms <= 300 && c.beh.lat_ms <= 200 && c.beh.yields <= 4 && c.via <= 1 && c.recheck_after_ms <= 50)
         && s.knobs.jumps.is_empty()
+        && s.inner_capacity.map(|c| c >= 1 && c <= 4).unwrap_or(true)
 }
 
 const PROBE_AT: u64 = 2000;
@@ -121,6 +126,10 @@ pub fn run(s: &Scn, ctx: &mut RunCtx) -> RunOutput {
             for (i, c) in scn.callers.iter().enumerate() {
                 w.script.by_req.insert((0, i as u32), vec![c.beh]);
                 w.script.by_req.insert((1, i as u32), vec![c.beh]);
+            }
+            if let Some(c) = scn.inner_capacity {
+                w.script.capacity.insert(0, c as i64);
+                w.script.capacity.insert(1, c as i64);
             }
         });
         let alg = if scn.vegas {
@@ -159,7 +168,9 @@ pub fn run(s: &Scn, ctx: &mut RunCtx) -> RunOutput {
                             let true_inflight = world::with(|w| w.in_flight[via as usize]);
                             let limit = i64::try_from(svc.limit()).unwrap_or(i64::MAX);
                             let r = svc.poll_ready(cx);
-                            world::note(if r.is_pending() { "ready_pending" } else { "ready_ok" }, true_inflight, limit);
+                            // a Pending that comes from the wrapped service (no free slot there) is not the limiter's
+                            let inner_full = world::with(|w| w.script.capacity.get(&via).map(|c| w.in_flight[via as usize] + w.reserved[via as usize] >= *c).unwrap_or(false));
+                            world::note(if r.is_pending() && inner_full { "ready_pending_inner" } else if r.is_pending() { "ready_pending" } else { "ready_ok" }, true_inflight, limit);
                             r
                         })
                         .await;
@@ -258,7 +269,9 @@ pub fn run(s: &Scn, ctx: &mut RunCtx) -> RunOutput {
                 let my_svc = if i < n { s.callers[i].via } else { 0 };
                 let stuck = calls.iter().filter(|c| c.svc == my_svc && c.end_seq.is_none()).count();
                 let own_never = i < n && s.callers[i].beh.out == Outcome::Never && calls.iter().any(|c| c.req == i as u32);
-                if !own_never && stuck < s.min as usize {
+                // (a wrapped service whose few slots are all taken by never-completing calls blocks too)
+                let inner_blocked = s.inner_capacity.map(|c| stuck >= c as usize).unwrap_or(false);
+                if !own_never && stuck < s.min as usize && !inner_blocked {
                     world::violation("C13.ready_iff_capacity", "probe_never_ready", format!("caller {} never became ready although only {} calls are still running (min_limit {})", i, stuck, s.min));
                 }
             }
